@@ -23,6 +23,7 @@ def run(tier, seed):
     vlib.require(reph["nontrivial"] > 30, "history replay too small")
     v.assumptions += ["resources carry their own name as content so that the served data-URL identifies the chosen resource",
                       "third-party computed in the spec with single-label public suffixes"]
+    vlib.scale_stage(v, wd, "C14")
     return v.finish("model_checking", rule % k, exhaustive=True)
 
 
